@@ -39,6 +39,11 @@ SYNTAX = {
     'directives': ("@@grammar :: G\n@@whitespace :: /[ ]+/\n@@nameguard :: False\n@@namechars :: '-'\n@@ignorecase :: True\n@@left_recursion :: False\n"
                    "@@parseinfo :: True\n@@comments :: /\\(\\*.*?\\*\\)/\n@@eol_comments :: /#.*$/\n@@keyword :: if else 'end' \"fi\"\n@@keyword :: None True 1\n\na: 'x' ;\n"),
     'keywords-parenthesised': "@@keyword :: (if else 'end')\n@@keyword :: ( \"fi\" )\n\na[T]: 'x' ;\n",
+    # line ends other than LF, with rules ended by blank lines, dedents and semicolons
+    'crlf-blank-ends': "a: 'x'\r\n\r\nb: 'y'\r\n\r\nc: a b\r\n",
+    'cr-blank-ends': "a: 'x'\r\rb: 'y'\r\rc: a b\r",
+    'crlf-semicolons': "a: 'x' ;\r\nb: 'y' ;\r\nc: a\r\n   b ;\r\n",
+    'mixed-line-ends': "a: 'x'\n\r\nb: 'y'\r\n\nc: a b \t\r\n \r\nd: c\n",
     'directives2': "@@whitespace :: None\n@@nameguard :: True\n\na: 'x' ;\n",
     'constants': "a: `1` `'s'` `x{y}` ```multi\nline``` ^`alert` ^^^`three` `True` ;\n",
     'meta': "a: @int @uint @float @bool @name ;\n",
